@@ -206,6 +206,12 @@ func runC23(r *Run) {
 			if len(ret.Results) == 0 {
 				continue
 			}
+			// an error return (nil, err) gives no view of the node: nothing to compare
+			if tv, ok := info.Types[ast.Unparen(ret.Results[0])]; ok && tv.IsNil() && len(ret.Results) == 2 {
+				if tv2, ok := info.Types[ret.Results[1]]; ok && !tv2.IsNil() {
+					continue
+				}
+			}
 			nViews++
 			o := r.Ob(R1, fi.Name()+"#returns-record", ret.Pos())
 			e := ast.Unparen(ret.Results[0])
